@@ -847,7 +847,8 @@ def _group_func_wrap(
             counts,
         )
 
-    if orig_type.kind in "mM":
+    if orig_type.kind in "mM" and not counting:
+        # (a count of timestamps is a plain integer, not a timestamp)
         result = result.astype(orig_type)
 
     if return_count:
